@@ -545,7 +545,8 @@ class C03(ProverCheck):
     budget = {"quick": 500, "thorough": 20000}
     kinds = ["lt", "le", "eq", "ne", "gt", "ge", "zero", "nonzero", "positive", "positive_n", "range",
              "range_secret", "tobool", "bits_n", "bool_cmp", "fxp_cmp", "fxp_range", "gt", "lt", "positive_n",
-             "range", "bool_vs_int", "boolop_int", "fxp_const_other_resolution", "int_const_other_bitlength"]
+             "range", "bool_vs_int", "boolop_int", "fxp_const_other_resolution", "int_const_other_bitlength",
+             "int_vs_fxp"]
     rule = ("one assertion or type declaration per plan (assert_lt/le/eq/ne/gt/ge on integer, boolean and "
             "fixed-point operands with secret and constant right-hand sides, assert_zero/nonzero, "
             "assert_positive with and without an explicit width, assert_range with constant and secret "
@@ -637,6 +638,25 @@ class C03(ProverCheck):
             vectors = [[a] for a in _boundary(rng, c, min(bl, 4))]
             plan = {"cfg": cfg, "inputs": inputs, "body": pre + [stmt]}
             return {"plan": plan, "vectors": vectors[:12], "seed": rng.randrange(1 << 30)}
+        elif kind == "int_vs_fxp":
+            # operands of two different secret types in one assertion (either refused, or judged on the numbers
+            # the operands stand for)
+            res = cfg["resolution"]
+            y = rng.choice([1.5, 5.0, 0.5, 2.0, 3.0]) if res >= 1 else rng.choice([1.0, 5.0, 2.0])
+            inputs = [{"kind": "priv", "t": "I", "v": 0}, {"kind": "priv", "t": "F", "v": y}]
+            Iref, Fref = {"ref": 0, "t": "I"}, {"ref": 0, "t": "F"}
+            u = rng.random()
+            if u < 0.4:
+                stmt = {"s": "assert", "kind": rng.choice(list(ASSERT_CMP_KINDS)), "args": [Iref, Fref]}
+            elif u < 0.7:
+                stmt = {"s": "assert", "kind": rng.choice(list(ASSERT_CMP_KINDS)), "args": [Fref, Iref]}
+            elif u < 0.85:
+                stmt = {"s": "assert", "kind": "range", "args": [Iref, Fref, {"k": int(y * (1 << res)) + 2, "t": "I"}]}
+            else:
+                stmt = {"s": "assert", "kind": "range", "args": [Iref, {"k": 0, "t": "I"}, Fref]}
+            sc = int(y * (1 << res))
+            xs = sorted({int(y) - 1, int(y), int(y) + 1, int(y) + 2, sc - 1, sc, sc + 1, 0, -1})
+            vectors = [[x, y] for x in xs]
         elif kind in ("fxp_cmp", "fxp_range"):
             res = cfg["resolution"]
             u = 1.0 / (1 << res)
@@ -1300,10 +1320,45 @@ class FileCheck(TraceCheck):
                 alt.append(1 - inp["v"])
             else:
                 alt.append(inp["v"] + 1.0)
-        return {"plan": plan, "alt_inputs": alt, "stale_dir": rng.random() < 0.2}
+        case = {"plan": plan, "alt_inputs": alt, "stale_dir": rng.random() < 0.2}
+        if rng.random() < 0.05 and not bulk and not any(s.get("s") == "checkpoint_prove" for s in plan["body"]):
+            # the same script once more as a real program: fresh interpreter, real exit hook, and one of the
+            # interpreter configurations a deployment may run under
+            case["child"] = {"pyflags": rng.choice([[], ["-O"], ["-OO"], ["-O"]])}
+        return case
 
     def files_problems(self, files, rec):
         raise NotImplementedError
+
+    def child_run(self, case, viol, probes):
+        from . import exitsim as X
+        plan = case["plan"]
+        backend = plan["cfg"]["backend"]
+        flags = list(case["child"]["pyflags"])
+        src = "_rt.bitlength = %d\n_fp = __import__('pysnark.fixedpoint').fixedpoint\n_fp.resolution = %d\n" % (
+            plan["cfg"]["bitlength"], plan["cfg"]["resolution"]) + X.body_source(plan) + "\n__term__('end-of-script')\n"
+        r = X.run_child(src, {"inputs": [i["v"] for i in plan["inputs"]], "autoprove": True}, X.child_env(backend),
+                        pyflags=flags)
+        if r["rc"] == "timeout":
+            raise W.HarnessError("child interpreter timed out")
+        ev = r["events"]
+        if not ev or ev[0].get("ev") != "imported":
+            raise W.HarnessError("child did not import pysnark: rc=%r stderr=%s" % (r["rc"], r["stderr"][-500:]))
+        proves = [e for e in ev if e["ev"] == "prove"]
+        key = "child_run" + "".join(flags)
+        probes[key] = 1
+        if r["rc"] != 0 or len(proves) != 1 or proves[0]["trace"] is None:
+            probes["child_run_not_judged"] = 1
+            return len(ev)
+        rec = X.trace_to_rec(proves[0]["trace"], backend)
+        for oracle, where, detail in self.files_problems(r["after"], rec):
+            s = {"where": where.split(":")[0] + ":" + where.split(":")[-1] if ":" in where else where,
+                 "interpreter": "python " + " ".join(flags) if flags else "python"}
+            if len(self.backends) > 1:
+                s["backend"] = backend
+            viol.append({"property": self.prop, "oracle": oracle, "site": s, "detail": "as a program: " + detail})
+            break
+        return len(ev) + len(r["after"])
 
     def run(self, case):
         tr = T.TraceRun(case["plan"], props=()).run()
@@ -1336,8 +1391,12 @@ class FileCheck(TraceCheck):
         if "wP" in kinds:
             probes["public_after_private"] = 1
         extra = self.extra(case, tr, files, viol, probes)
+        if case.get("child") and tr.outcome == "completed":
+            extra += self.child_run(case, viol, probes)
         res = self.result(tr, case, viol)
         res["probes"] = probes
+        if case.get("child"):
+            res.setdefault("faults", {})["interpreter:" + ("".join(case["child"]["pyflags"]) or "default")] = 1
         res["events"] += len(files) + extra
         res["nontrivial"] = P.plan_digest(case["plan"]) if rec.cons and files else None
         res["digest"] = E.sha((res["digest"], sorted((k, E.sha(v.hex())) for k, v in files.items())))
@@ -1479,13 +1538,20 @@ class C18(TraceCheck):
             # an earlier sys.exit() that the script catches itself (e.g. a --help path), then the run goes on
             pre = rng.choice(["0", "", "3", "'msg'"])
             plan["body"].insert(rng.randrange(0, k + 1), {"s": "caught_exit", "arg": pre})
-        return {"plan": plan, "mode": mode, "arg": arg, "k": k, "autoprove": rng.random() < 0.8,
+        case = {"plan": plan, "mode": mode, "arg": arg, "k": k, "autoprove": rng.random() < 0.8,
                 "stale": rng.random() < 0.3 and backend != "qaptools", "pre": pre}
+        if rng.random() < 0.2:
+            # runtime.operation set by the script (the libsnark examples' idiom) on a backend that has no such step
+            case["operation"] = rng.choice(["prove", "keygen", "verify", "nonsense"])
+            case["namevals"] = rng.choice([{}, {"x": 3}])
+        return case
 
     def run(self, case):
         plan = case["plan"]
         backend = plan["cfg"]["backend"]
         cfg = {"inputs": [i["v"] for i in plan["inputs"]], "autoprove": case["autoprove"]}
+        if case.get("operation") is not None:
+            cfg["operation"], cfg["namevals"] = case["operation"], case.get("namevals") or {}
         pre = {}
         if case["stale"]:
             pre = {fn: b"STALE ARTEFACT OF AN EARLIER, LARGER RUN " + fn.encode() + b"\xa5" * 50000
@@ -1504,6 +1570,8 @@ class C18(TraceCheck):
         site = {"mode": mode, "arg": arg, "autoprove": case["autoprove"]}
         if case.get("pre") is not None:
             site["pre"] = "caught_exit:" + case["pre"]
+        if case.get("operation") is not None:
+            site["operation"] = case["operation"]
         viol = []
 
         def add(oracle, detail, **extra):
@@ -1557,8 +1625,10 @@ class C18(TraceCheck):
                 add("artefact_on_failure", "exit status %r but prove ran %d times, files changed %r" % (
                     rc, len(proves), changed))
         posclass = "first" if case["k"] == 0 else ("last" if case["k"] >= len(plan["body"]) - 1 else "middle")
-        nt = E.sha((mode, arg, posclass, backend, case["autoprove"], case["stale"]))
+        nt = E.sha((mode, arg, posclass, backend, case["autoprove"], case["stale"], case.get("operation") is not None))
         faults = {"term:" + mode: 1}
+        if case.get("operation") is not None:
+            faults["operation_set"] = 1
         if case["stale"]:
             faults["stale"] = 1
         probes = {"status_%s" % ("0" if rc == 0 else "nonzero"): 1, "prove_ran": len(proves)}
@@ -1879,6 +1949,28 @@ _rt.autoprove = False
 '''
 
 
+_GGH_COEFF = {}
+
+
+def ggh_reference(bits, p):
+    """Independent plain subset-sum hash: coefficient i is the first SHA512(i || it), read little-endian and cut to
+    ceil(log2 p) bits (= p.bit_length() for a prime), that is below p."""
+    import hashlib
+    import struct
+    total = 0
+    for i, b in enumerate(bits):
+        if (p, i) not in _GGH_COEFF:
+            it = 0
+            while True:
+                val = int.from_bytes(hashlib.sha512(struct.pack("=QQ", i, it)).digest(), "little") % (1 << p.bit_length())
+                if val < p:
+                    break
+                it += 1
+            _GGH_COEFF[(p, i)] = val
+        total = (total + b * _GGH_COEFF[(p, i)]) % p
+    return total
+
+
 class C20(TraceCheck):
     name = "C20"
     prop = "C20"
@@ -2010,6 +2102,9 @@ class C20(TraceCheck):
             if e["ev"] == "ggh":
                 if e["traced"] % e["modulus"] != e["plain"] % e["modulus"]:
                     add("ggh_ne_plain", "traced subset-sum hash differs from the plain one on %d bits" % len(e["bits"]))
+                elif name in W.PRIMES and e["traced"] % W.PRIMES[name] != ggh_reference(e["bits"], W.PRIMES[name]):
+                    add("ggh_ne_reference", "subset-sum hash of %d bits differs from the reference (coefficient i = first "
+                        "SHA512(i || counter), cut to ceil(log2 p) bits, that is below p)" % len(e["bits"]))
                 nt.append(E.sha((path, name, e["bits"])))
         return {"violations": viol, "digest": E.sha((name, [(e["ev"], e.get("out"), e.get("traced")) for e in ev],
                                                      [v["oracle"] for v in viol])),
@@ -2506,8 +2601,12 @@ class C15(ProverCheck):
     def gen(self, rng, i, tier):
         cfg = self.cfg(rng)
         two_d = rng.random() < 0.4
+        three_d = two_d and rng.random() < 0.3
         n = rng.randrange(1, 6) if not two_d else rng.randrange(1, 5)
         m = rng.randrange(1, 4)
+        q = rng.randrange(1, 3)
+        if three_d:
+            n = min(n, 3)
         # inputs: index inputs first (secret), then some element values
         n_ix = rng.randrange(1, 4)
         oob = rng.random() < 0.25
@@ -2517,7 +2616,7 @@ class C15(ProverCheck):
             if oob and rng.random() < 0.4:
                 return rng.choice([lim, lim + 1, -1, -2, lim + 5])
             return rng.randrange(0, lim)
-        dims = [n, m] if two_d else [n]
+        dims = [n, m, q] if three_d else [n, m] if two_d else [n]
         ix_dim = []
         for j in range(n_ix):
             d = rng.randrange(len(dims))
@@ -2540,7 +2639,9 @@ class C15(ProverCheck):
             if cands and rng.random() < 0.7:
                 return {"ref": rng.choice(cands), "t": "I"}
             return {"k": rng.randrange(0, dims[d])}
-        if two_d:
+        if three_d:
+            body = [{"s": "array", "nest": [[[elem() for _ in range(q)] for _ in range(m)] for _ in range(n)]}]
+        elif two_d:
             body = [{"s": "array", "rows": [[elem() for _ in range(m)] for _ in range(n)]}]
         else:
             body = [{"s": "array", "els": [elem() for _ in range(n)]}]
@@ -2548,7 +2649,9 @@ class C15(ProverCheck):
         if rng.random() < 0.35 and n >= 2:
             # a second, shorter array indexed by the same (secret) index objects
             n2 = n - rng.randrange(1, min(3, n))
-            if two_d:
+            if three_d:
+                body.append({"s": "array", "nest": [[[elem() for _ in range(q)] for _ in range(m)] for _ in range(n2)]})
+            elif two_d:
                 body.append({"s": "array", "rows": [[elem() for _ in range(m)] for _ in range(n2)]})
             else:
                 body.append({"s": "array", "els": [elem() for _ in range(n2)]})
@@ -2563,7 +2666,12 @@ class C15(ProverCheck):
                 continue
             arr = rng.randrange(narr) if narr == 2 else 0
             chained = two_d and rng.random() < 0.25
-            if two_d and rng.random() < 0.2:
+            if three_d and rng.random() < 0.15:
+                # a partial index tuple: replaces a whole innermost row by the one read at another position
+                body.append({"s": "aset", "arr": 0, "ix": [index(0), index(1)], "row_from": [index(0), index(1)],
+                             "value": {"k": 0}, "try": True})
+                continue
+            if two_d and not three_d and rng.random() < 0.2:
                 # store the row read at a (usually secret) index at another position
                 body.append({"s": "aset", "arr": 0, "ix": [index(0)], "row_from": index(0), "value": {"k": 0}, "try": True})
                 continue
@@ -2664,7 +2772,9 @@ class C15(ProverCheck):
         res["digest"] = E.sha((res["digest"], snaps[-1] if snaps else None, n_caught))
         res["sigs"] = [E.sha((s["s"], len(s.get("ix") or s.get("e", {}).get("ix") or []),
                               [("ref" in i) for i in (s.get("ix") or s.get("e", {}).get("ix") or [])],
-                              bool(s.get("chained") or s.get("e", {}).get("chained")), len(plan["body"][0].get("rows") or []),
+                              bool(s.get("chained") or s.get("e", {}).get("chained")),
+                              len(plan["body"][0].get("rows") or plan["body"][0].get("nest") or []),
+                              bool(plan["body"][0].get("nest")),
                               len(plan["body"][0].get("els") or []), bool(tr.caught))) for s in plan["body"][1:]
                        if s.get("s") not in ("array", "aderive")]
         return res
@@ -2769,6 +2879,8 @@ class C17(TraceCheck):
     def gen(self, rng, i, tier):
         cfg = self.cfg(rng)
         inputs = [{"kind": "priv", "t": "I", "v": rng.choice([0, 1, 2, 3, 4, 6])} for _ in range(rng.randrange(1, 3))]
+        n_conds = rng.choice([0, 0, 1, 2])
+        inputs += [{"kind": "priv", "t": "B", "v": rng.choice([0, 1])} for _ in range(n_conds)]
         body = []
         shared = []
         if rng.random() < 0.4:
@@ -2801,6 +2913,9 @@ class C17(TraceCheck):
             st = {"s": "snark_call", "args": args, "ret": ret, "try": True}
             if rng.random() < 0.08:
                 st["kwargs"] = True
+            if n_conds and rng.random() < 0.35:
+                # the wrapped call happens inside a region guarded by a secret condition (either value)
+                st = {"s": "guarded", "cond": {"ref": rng.randrange(n_conds), "t": "B"}, "body": [st]}
             body.append(st)
             if rng.random() < 0.3:
                 body.append({"s": "let", "e": {"op": "*", "a": {"ref": 0, "t": "I"}, "b": {"ref": 1, "t": "I"}, "t": "I"}})
@@ -2828,22 +2943,31 @@ class C17(TraceCheck):
         for s_ in plan["body"]:
             if s_["s"] == "snark_args":
                 _ARGVARS[s_["name"]] = s_["value"]
-        calls = [s for s in plan["body"] if s["s"] == "snark_call"]
-        t_caught = {}
-        for (site, cls, msg) in tr.caught:
-            t_caught[site] = cls
         nts = []
-        # call ids are assigned in order of appearance (rid increments once per call)
+        # ids are assigned in order of appearance (one per region, one per call)
         rid = 0
-        pub_index = 0
+        seq = []
         for st in plan["body"]:
-            if st["s"] != "snark_call":
-                continue
-            rid += 1
+            if st["s"] == "guarded":
+                rid += 1
+                region = rid
+                for st2 in st["body"]:
+                    if st2["s"] == "snark_call":
+                        rid += 1
+                        seq.append((st2, rid, region))
+            elif st["s"] == "snark_call":
+                rid += 1
+                seq.append((st, rid, None))
+        for st, rid, region in seq:
             c = tr.calls.get(rid)
             leaves = T.flat_leaves([_struct_to_py(a) for a in st["args"]])
             types = sorted({l["lt"] for l in leaves})
             site0 = {"arg_types": "+".join(types), "kwargs": bool(st.get("kwargs"))}
+            dead = region is not None and bool(tr.region_dead.get((region, "t")))
+            if region is not None:
+                site0["guard"] = 0 if dead else 1
+                probes["call_under_false_guard" if dead else "call_under_true_guard"] = \
+                    probes.get("call_under_false_guard" if dead else "call_under_true_guard", 0) + 1
             if st.get("kwargs"):
                 probes["kwargs_call"] = probes.get("kwargs_call", 0) + 1
                 if c is not None and "ret" in c:
@@ -2869,6 +2993,40 @@ class C17(TraceCheck):
                     exp_args.append(int(l["k"]))
                 elif l["lt"] == "F":
                     exp_args.append(int(l["k"] * res_scale))
+            if dead:
+                # a call in a branch that is not taken: the values there are arbitrary, but the call still publishes
+                # exactly its arguments and then one output per secret result, and hands back those outputs
+                got = [int(v) for v in pubs]
+                n_out_exp = sum(1 for le in T.flat_leaves(_struct_to_py(st["ret"])) if _uses_leaf(le))
+                ret_leaves = T.flat_leaves(_unplain(c["ret"])) if c["ret"] is not None else None
+                ret_exprs = T.flat_leaves(_struct_to_py(st["ret"]))
+                if got[:len(exp_args)] != exp_args:
+                    add("public_order", dict(site0, part="arguments"),
+                        "public wires allocated for the arguments: %r, arguments in order: %r" % (got[:len(exp_args)], exp_args))
+                elif len(got) - len(exp_args) != n_out_exp:
+                    add("public_order", dict(site0, part="results"),
+                        "under a false guard the call allocated %d public outputs for %d secret results"
+                        % (len(got) - len(exp_args), n_out_exp))
+                elif ret_leaves is None or len(ret_leaves) != len(ret_exprs):
+                    add("return_shape", site0, "under a false guard the call returned %r" % (c["ret"],))
+                else:
+                    outs = got[len(exp_args):]
+                    j = 0
+                    for le, rv in zip(ret_exprs, ret_leaves):
+                        if not _uses_leaf(le):
+                            continue
+                        pv = outs[j]
+                        j += 1
+                        if isinstance(rv, bool) or not isinstance(rv, (int, float)):
+                            add("return_shape", site0, "under a false guard the call returned %r" % (c["ret"],))
+                            break
+                        r_int = int(round(rv * res_scale)) if isinstance(rv, float) else int(rv)
+                        if (r_int - pv) % rec.p != 0:
+                            add("return_ne_public_output", site0,
+                                "returned %r, the public output holds %r" % (rv, pv))
+                            break
+                nts.append(E.sha((st["args"], st["ret"], "dead")))
+                continue
             nat = n_calls.get(rid)
             if c["ret"] != nat:
                 add("return_ne_native", site0, "wrapped call returned %r, undecorated function gives %r" % (c["ret"], nat))
